@@ -20,3 +20,6 @@ def run(repo, res, tier):
     effects.rule_estate(repo, res, families=("PVLEncoder",))
     effects.rule_shared_class_state(repo, res)
     effects.rule_globals(repo, res, modules=("encoder", "__init__", "new"), floor=20)
+    # the permitted in-place conversion goes through item assignment: its documented effect (replace the first pair with
+    # that key, drop the later pairs *with that key*) is part of what "does not damage its argument" rests on
+    multidict.rule_m4(repo, res)
